@@ -76,6 +76,27 @@ def compile_cmd(n: int, k: int, target: str) -> str:
         return f"!not-a-list:{type(seq).__name__}"
     return "seq=" + plist(seq)
 
+def ccompile_cmd(n: int, k: int, targets) -> str:
+    """the class API with object reuse: ONE OptimalPauliCompiler compiles the targets in a row"""
+    try:
+        opc = pc.OptimalPauliCompiler(pc.PauliCompilerConfig(k_left=k, n_total=n))
+    except RecursionError:
+        raise
+    except Exception as e:
+        return f"{exc_name(e)}@{raise_site(e)}"
+    out = []
+    for t in targets:
+        try:
+            p = get_pauli_string(t)
+            seq = opc.compile(p.get_substring(0, k), p.get_substring(k, n - k))
+        except RecursionError:
+            raise
+        except Exception as e:
+            out.append(f"{exc_name(e)}@{raise_site(e)}")
+            continue
+        out.append("seq=" + plist(seq) if isinstance(seq, list) else f"!not-a-list:{type(seq).__name__}")
+    return "|".join(out)
+
 def handle(line: str) -> str:
     t = line.split(" ")
     if t[0] == "uset": return guard(lambda: plist(pc.construct_universal_set(int(t[1]), int(t[2]))))
@@ -87,6 +108,54 @@ def handle(line: str) -> str:
     if t[0] == "ctfront": return ctfront(mk(t[1]), int(t[2]))
     if t[0] == "valid": return valid(int(t[1]), int(t[2]), mk(t[3]), seq_of(t[4]))
     if t[0] in ("compile", "witness"): return compile_cmd(int(t[1]), int(t[2]), t[3])
+    if t[0] == "ccompile": return ccompile_cmd(int(t[1]), int(t[2]), t[3].split(","))
+    if t[0] == "lmap":
+        return guard(lambda: plist(pc.left_map_over_a(mk(t[2]), mk(t[3]), pc.left_a_minimal(int(t[1])))))
+    if t[0] in ("subc", "forders", "cdec", "bfs3"):
+        n, k, w = int(t[1]), int(t[2]), mk(t[3])
+        if t[0] == "subc":
+            return guard(lambda: plist(pc.SubsystemCompiler(pc.SubsystemCompilerConfig(k_left=k, n_total=n)).subsystem_compiler(w)))
+        if t[0] == "forders":
+            def run():
+                o = pc.SubsystemCompiler(pc.SubsystemCompilerConfig(k_left=k, n_total=n)).factor_w_orders(w)
+                return ";".join(".".join(pstr(b) for _, b in seq) or "-" for seq in o) or "-"
+            return guard(run)
+        if t[0] == "cdec":
+            def run():
+                o = pc.OptimalPauliCompiler(pc.PauliCompilerConfig(k_left=k, n_total=n))._candidate_decompositions(w)
+                return ",".join(f"{pstr(a)}/{pstr(b)}" for a, b in o) or "-"
+            return guard(run)
+        def run():
+            o = pc.OptimalPauliCompiler(pc.PauliCompilerConfig(k_left=k, n_total=n))._bfs_case3(w, int(t[4]), int(t[5]))
+            return "None" if o is None else plist(o)
+        return guard(run)
+    if t[0] in ("a1a2", "aprime"):
+        def run():
+            sc = pc.SubsystemCompiler(pc.SubsystemCompilerConfig(k_left=int(t[1]), n_total=int(t[1]) + 1))
+            if t[0] == "a1a2":
+                return plist(sc._choose_a1_a2(mk(t[2])))
+            return pstr(sc._choose_aprime(mk(t[2]), mk(t[3])))
+        return guard(run)
+    if t[0] == "case3":
+        def run():
+            o = pc.OptimalPauliCompiler(pc.PauliCompilerConfig(k_left=int(t[2]), n_total=int(t[1])))._case3_best_reordering(
+                seq_of(t[3]), seq_of(t[4]), seq_of(t[5]), mk(t[6]))
+            return "None" if o is None else plist(o)
+        return guard(run)
+    if t[0] in ("il3", "il4"):
+        def run():
+            o = pc.OptimalPauliCompiler.__new__(pc.OptimalPauliCompiler)
+            blocks = [seq_of(x) for x in t[2:-1]]
+            want = t[-1]
+            gen = (o._all_interleavings_preserving if t[0] == "il3" else o._all_interleavings_preserving4)(*blocks, cap=int(t[1]))
+            n, hit = 0, False
+            for s in gen:
+                n += 1
+                if plist(s) == want:
+                    hit = True
+                    break
+            return f"count={n} hit={B(hit)}"
+        return guard(run)
     if t[0] == "alg":
         from paulie.common.pauli_string_collection import PauliStringCollection
         return guard(lambda: str(PauliStringCollection(pc.construct_universal_set(int(t[1]), int(t[2]))).get_class().get_algebra()))
